@@ -137,3 +137,33 @@ func init() {
 		}
 	}})
 }
+
+func init() {
+	register(&Property{ID: "X-pathcons", NeedSSA: true, Decided: "dump", NotDecided: "-", Run: func(c *Ctx) {
+		pc := newPathCons(c.P)
+		for _, fn := range c.P.ModuleSSAFuncs() {
+			if fn.Origin() != nil || fn.Parent() != nil {
+				continue
+			}
+			mode := ""
+			switch fn.Name() {
+			case "SeekToRow", "Seek", "Reset":
+				mode = "nilerr"
+			case "ReadPage", "ReadRows", "ReadValues", "Read", "ReadRow", "WriteRows", "WriteValues", "Write":
+				mode = "value"
+			}
+			if mode == "" {
+				continue
+			}
+			for _, r := range pc.Analyse(fn, mode) {
+				fmt.Printf("%-5v %s . %s (success returns %d) bad=%s\n", r.OK, FuncKey(fn), r.Field.Name(), r.NSuccess, c.P.Pos(r.BadReturn))
+			}
+		}
+	}})
+}
+
+func init() {
+	register(&Property{ID: "X-prefix", NeedSSA: true, Decided: "dump", NotDecided: "-", Run: func(c *Ctx) {
+		runPrefixRule(c, "X.prefix", map[string]bool{"ReadRows": true, "ReadValues": true, "Read": true, "ReadAt": true, "WriteRows": true, "WriteValues": true, "Write": true, "ReadRow": true, "ReadValuesAt": true})
+	}})
+}
